@@ -64,7 +64,11 @@ func runStream(seed int64, n int, opt gen.Options, mk func(i int) *gen.Case, eac
 				} else {
 					c = gen.Generate(seed, i, opt)
 				}
-				dir, err := cases.NewScratch("gen", c.Files)
+				prefix := "gen"
+				if c.Index%8 == 3 {
+					prefix = "g%20n%d" // a directory name with printf verbs in it
+				}
+				dir, err := cases.NewScratch(prefix, c.Files)
 				if err != nil {
 					mu.Lock()
 					firstErr = err
